@@ -651,6 +651,11 @@ class Inliner:
         body = real_body(callee)
         if not body:
             return None
+        if len(r) > 2 and r[2] is not None and any(isinstance(n, ast.Match) for x in body for n in ast.walk(x)):
+            try:
+                body = r[2]([copy.deepcopy(x) for x in body])       # (a helper written as a match: its isinstance chain)
+            except NoCanon:
+                return None
         star_extra = None
         if callee.args.vararg:
             # f(a, *rest) called with plain positional arguments: rest is the tuple of the extra ones
